@@ -33,10 +33,11 @@ class Tree:
             return [c for c in t[len(self.absprefix) + 1:].split("/") if c and c != "."]
         return None
 
-    def resolve(self, rel, follow_last=False):
+    def resolve(self, rel, follow_last=False, trace=None):
         """physical root-relative path ('' = the root itself) of `rel`, or None when a parent
         component does not exist / is not a directory / leaves the root / loops.
-        The returned path's last component may itself not exist."""
+        The returned path's last component may itself not exist.  `trace` (a list) receives the
+        physical path of every symlink followed on the way."""
         todo = [c for c in rel.split("/") if c and c != "."]
         cur = []  # physical components so far (always an existing directory)
         hops = 0
@@ -57,6 +58,8 @@ class Tree:
                 hops += 1
                 if hops > 40:
                     return None
+                if trace is not None:
+                    trace.append(cand)
                 tgt = e["target"]
                 if tgt.startswith("/"):
                     comps = self._abs_to_rel(tgt)
